@@ -201,6 +201,9 @@ TOKENS = {
     '# composite(50,50,0) || composite=1 color=yellow\ncircle(50,50,5) ||\nbox(50,50,8,8,0)':
         ('composite', [{'shape': 'circle', 'xy': (50.0, 50.0), 'sizes': [5.0], 'angle': None, 'color': 'yellow'},
                        {'shape': 'rectangle', 'xy': (50.0, 50.0), 'sizes': [8.0, 8.0], 'angle': 0.0, 'color': 'yellow'}]),
+    # a composite whose last member (the line without '||') is a shape the package skips: the composite still ends there
+    '# composite(60,60,0) || composite=1 color=cyan width=5\ncircle(60,60,4) ||\nvector(60,60,5,30)':
+        ('composite', [{'shape': 'circle', 'xy': (60.0, 60.0), 'sizes': [4.0], 'angle': None, 'color': 'cyan', 'width': 5}]),
     '# a comment line': ('comment', None),
     '': ('blank', None),
     'vector(1,2,3,4)': ('skip', None),
@@ -223,7 +226,7 @@ def model_run(tokens):
         color = r.get('color', glob.get('color'))
         out.append({'shape': r['shape'], 'kind': 'pixel' if fr == 'image' else 'sky', 'frame': fr, 'coords': coords,
                     'sizes': list(r['sizes']), 'angle': r['angle'], 'include': r.get('include', True), 'color': color,
-                    'width': glob.get('width'), 'text_param': r.get('text')})
+                    'width': r.get('width', glob.get('width')), 'text_param': r.get('text')})
     for t in tokens:
         kind, val = TOKENS[t] if t in TOKENS else ('region', None)
         if kind == 'frame':
